@@ -10,10 +10,56 @@ PROPS = {}
 MODFILE = {
     "hx-client": {"c13": "src/c13.rs"},
     "hx-protocol": {"c05": "src/c05.rs", "c06": "src/c06.rs", "c14": "src/c14.rs"},
-    "hx-topic": {"pubsub_t": "src/pubsub_t.rs", "reqrep_t": "src/reqrep_t.rs"},
+    "hx-topic-dev": {"pubsub_t": "src/pubsub_t.rs", "reqrep_t": "src/reqrep_t.rs", "router_s": "src/router_s.rs"},
+    "hx-topic": {"pubsub_t": "src/pubsub_t.rs", "reqrep_t": "src/reqrep_t.rs", "router_s": "src/router_s.rs"},
     "hx-server": {"fanout": "src/fanout.rs", "router": "src/router.rs", "pubsub": "src/pubsub.rs", "reqrep": "src/reqrep.rs"},
 }
 PREPARE = {}
+
+
+def _prepare_hx_topic(workroot):
+    """Regenerates hx-topic/generated/{router,reqrep}.rs from /repo's current source: the file
+    text with ONE substitution - std's HashMap import redirected to the shim map (DESIGN section 2,
+    'The HashMap wall'). Raises Inconclusive if the import line no longer has the expected shape."""
+    import os
+    from kplus import Inconclusive
+    d = os.path.join(os.path.dirname(os.path.abspath(__file__)), "kani", "hx-topic")
+    os.makedirs(os.path.join(d, "generated"), exist_ok=True)
+    os.makedirs(os.path.join(d, "src", "topic"), exist_ok=True)
+    src = open("/repo/server/src/topic/reqrep.rs").read()
+    if src.count("collections::HashMap,") != 1 or "use std::{" not in src:
+        raise Inconclusive("reqrep.rs: the std::collections::HashMap import no longer has the shape the substitution expects")
+    out = src.replace("collections::HashMap,", "", 1).replace("use std::{", "use selium_protocol::collections::HashMap;\nuse std::{", 1)
+    _write_if_changed(os.path.join(d, "generated", "reqrep.rs"), out)
+    src = open("/repo/server/src/sink/router.rs").read()
+    key = "    collections::{hash_map::IterMut, HashMap},\n"
+    if src.count(key) != 1:
+        raise Inconclusive("router.rs: the std::collections import no longer has the shape the substitution expects")
+    out = src.replace(key, "", 1).replace("use std::{", "use selium_protocol::collections::{hash_map::IterMut, HashMap};\nuse std::{", 1)
+    _write_if_changed(os.path.join(d, "generated", "router.rs"), out)
+    return d
+
+
+def _write_if_changed(path, text):
+    import os
+    if not os.path.exists(path) or open(path).read() != text:
+        open(path, "w").write(text)
+
+
+PREPARE["hx-topic"] = _prepare_hx_topic
+
+
+def _prepare_hx_topic_dev(workroot):
+    import os, shutil
+    d = _prepare_hx_topic(workroot)
+    dd = d + "-dev"
+    if os.path.isdir(dd):
+        for f in ("router.rs", "reqrep.rs"):
+            shutil.copy(os.path.join(d, "generated", f), os.path.join(dd, "generated", f))
+    return dd
+
+
+PREPARE["hx-topic-dev"] = _prepare_hx_topic_dev
 
 FMT_STUB_NOTE = "alloc::fmt::format -> empty String, log::__private_api::log -> no-op (formatting/logging is not the subject)"
 
@@ -26,7 +72,7 @@ NOT_APPLICABLE = {
 
 # properties whose checks are still being built in this session (moved to PROPS when they run clean)
 PENDING = "check under construction (harnesses exist under /verif/engines/kani but are not yet registered as passing); not claimed yet"
-for _p in ("C02", "C10", "C11"):
+for _p in ("C10", "C11"):
     NOT_APPLICABLE.setdefault(_p, PENDING)
 NOT_APPLICABLE["C03"] = "Subscriber/Publisher can only be built over a live BiStream (quinn streams) and a Client holding an Arc<tokio::Mutex<ClientConnection>>; the batching pipeline is private to them. The parts reachable without a connection are decided elsewhere (batch encode/decode order and round trip: C05; hostile batches: C06; codecs: C14); the hand-out order inside Subscriber::poll_next and finish() are outside the reach of the solver-based tools here."
 
@@ -144,6 +190,9 @@ PROPS["C05"] = {
         _p("c05::c05_batch_dec_n1", Q, "decode_message_batch of the image of [2 bytes]"),
         _p("c05::c05_batch_dec_n2", Q, "decode_message_batch of the image of [1,1 bytes]"),
         _p("c05::c05_batch_dec_n3", T, "decode_message_batch of the image of [2,0,1 bytes]"),
+        _p("c05::c05_batch_dec_e1", Q, "decode_message_batch of the image of [one empty message]"),
+        _p("c05::c05_batch_dec_e3", Q, "decode_message_batch of the image of [0,1,0 bytes] (more messages than payload bytes)"),
+        _p("c05::c05_batch_enc_e2", T, "encode_message_batch([two empty messages])"),
     ],
 }
 
@@ -157,6 +206,10 @@ PROPS["C06"] = {
     "claim": 'For every listed decoder and every listed concrete input length, ALL byte contents are covered: CBMC checks every panic, unwrap, index, slice, overflow and capacity-overflow site compiled into MessageCodec::decode / Frame::try_from / bincode, decode_message_batch, StringCodec, BytesCodec and BincodeCodec::decode, plus harness assertions bounding the number of messages and the capacity requested by the input size. Bounded by input length (<= 25 bytes) and by collection counts <= 1 inside Message payloads.',
     "note": 'Trusted: rustc/Kani MIR-to-goto translation, CBMC 6.11 + cadical, the re-implemented kani-driver steps of engines/kplus.py (cross-checked against cargo kani). Stubs (environment, listed per obligation in the evidence): alloc::fmt::format -> empty String; std::hash::RandomState::new -> fixed keys; std::backtrace::Backtrace::capture -> disabled. Lengths are concrete per harness, contents symbolic. Counterexamples are replayed natively (dev and release-like profiles) before being reported; timeouts / out-of-memory / too-small unwind bounds are reported as inconclusive (exit 2). For the bincode codec Vec::resize is replaced by an observer that compares the requested size with the input size (symbolic-size allocation cannot be executed by the solver). Decompressors are outside this check.',
     "obligations": [_unbatch(Q, b) for b in (0, 1, 7, 8, 9)] + [_unbatch(T, b, timeout=2400, mem_gb=20) for b in (15, 16, 17)] + [
+        _p("c05::c05_partial_c0", Q, "MessageCodec::decode on an empty buffer"),
+        _p("c05::c05_partial_c5", Q, "MessageCodec::decode on 5 arbitrary bytes"),
+        _p("c05::c05_partial_c8", Q, "MessageCodec::decode on 8 arbitrary bytes (header cut before the type byte)"),
+        _p("c05::c05_partial_c9", Q, "MessageCodec::decode on 9 arbitrary bytes (every length prefix)"),
         _p("c06::c06_frame_t0_b0", T, "complete RegisterPublisher frame, 0 payload bytes", timeout=1800),
         _p("c06::c06_frame_t1_b1", T, "complete RegisterSubscriber frame, 1 arbitrary payload byte", timeout=1800),
         _p("c06::c06_frame_t2_b9", T, "complete RegisterReplier frame, 9 arbitrary payload bytes", timeout=3000, mem_gb=14),
@@ -193,10 +246,11 @@ PROPS["C14"] = {
         _p("c14::c14_string_rt_c0", Q, "StringCodec round trip, empty string"),
         _p("c14::c14_string_rt_c1", Q, "StringCodec round trip, every string of 2 UTF-8 bytes"),
         _p("c14::c14_string_rt_c2", T, "StringCodec round trip, every string of 4 UTF-8 bytes", timeout=1800),
-        _p("c14::c14_string_any_b1", Q, "StringCodec::decode on every 1-byte input"),
-        _p("c14::c14_string_any_b2", Q, "StringCodec::decode on every 2-byte input"),
+        _p("c14::c14_string_any_b1", Q, "StringCodec::decode on every 1-byte input", timeout=1800, mem_gb=20),
+        _p("c14::c14_string_any_b2", Q, "StringCodec::decode on every 2-byte input", timeout=1800, mem_gb=20),
         _p("c14::c14_string_any_b3", T, "StringCodec::decode on every 3-byte input", timeout=1800),
         _p("c14::c14_string_any_b4", T, "StringCodec::decode on every 4-byte input", timeout=3000, mem_gb=14),
+        _p("c14::c14_string_invalid_menu", Q, "StringCodec::decode on 9 concrete invalid UTF-8 shapes (truncated 2/3/4-byte sequences, lone continuation, overlong, surrogate, 0xFF, bad continuation, > U+10FFFF)"),
         _p("c14::c14_bytes_rt_b0", Q, "BytesCodec round trip, empty"),
         _p("c14::c14_bytes_rt_b4", Q, "BytesCodec round trip, every 4-byte value"),
         _p("c14::c14_bincode_rt_c0", Q, "BincodeCodec<{String,u64}> round trip, empty string, every u64"),
@@ -228,6 +282,27 @@ PROPS["C07"] = {
 }
 
 
+def _r(h, tiers, bounds, **kw):
+    return K("hx-topic", f"router_s::{h}", tiers, bounds=bounds, **kw)
+
+
+ROUTER_S = [
+    _r("s_router_n2_none", Q, "2 requestors, one reply with headers None; every sink answer symbolic"),
+    _r("s_router_n2_empty", Q, "2 requestors, one reply with an empty header map"),
+    _r("s_router_n2_cid0", Q, "2 requestors, one reply {cid:0}"),
+    _r("s_router_n2_cid1", Q, "2 requestors, one reply {cid:1}"),
+    _r("s_router_n2_cid7", Q, "2 requestors, one reply with an unknown cid"),
+    _r("s_router_n2_cidx", Q, "2 requestors, one reply with a malformed cid"),
+    _r("s_router_n2_cid1_reqid", Q, "2 requestors, one reply {cid:1, req_id:5}"),
+    _r("s_router_n2_reqid_only", Q, "2 requestors, one reply {req_id:5} (no cid)"),
+    _r("s_router_n3_cid1", T, "3 requestors, one reply {cid:1}", timeout=1800),
+    _r("s_router_n2_two_replies", T, "2 requestors, two replies in a row, cid chosen by the solver", timeout=2400, mem_gb=16),
+]
+ROUTER_FAULTS_S = [
+    _r("s_router_faults_n2_cid1", Q, "2 requestors, reply {cid:1}; any sink operation may fail"),
+    _r("s_router_faults_n2_cid0", Q, "2 requestors, reply {cid:0}; any sink operation may fail"),
+]
+
 NOTE_T = "Layer T runs the router's SOURCE FILE verbatim (#[path] include of /repo/server/src/topic/pubsub.rs) against environment models: futures' mpsc channel, tokio-stream's StreamMap and an opaque error type are third-party/environment; FanoutMany is replaced by a contract model whose every clause is asserted on the real FanoutMany by the Layer-S obligations (fanout::*). Every ready/pending/arrival/failure outcome is a solver variable; wake-ups are modelled by armed gates. Trusted: Kani/CBMC/cadical, the K+ driver, the models' fidelity to the documented behaviour of futures mpsc and tokio-stream 0.1. Counterexamples are replayed natively before being reported."
 
 PROPS["C01"] = {
@@ -250,12 +325,13 @@ PROPS["C08"] = {
               "the failing sink is dropped and never used again, every other sink still holds exactly the items sent, no panic (index arithmetic "
               "after eviction), no sink is handed an item without having answered Ready, Pending only while a healthy sink is pending. Layer T with "
               "faults (thorough): subscribers may fail at any operation and publisher streams may yield error items or end: ordering/once-only and "
-              "wake-up discipline are unaffected. The request/reply half (Router eviction, failing replier) is NOT covered: std HashMap operations "
-              "are intractable for CBMC here (see DESIGN)."),
+              "wake-up discipline are unaffected. Request/reply half: the Router source (std HashMap substituted, see C02) with 2 requestor sinks where "
+              "any operation may fail: the failing requestor is dropped, the reply still reaches the healthy one, no panic. The replier side of "
+              "reqrep::Topic::poll (failing replier is unbound, next one binds) is NOT covered."),
     "note": NOTE_T,
-    "obligations": FANOUT_FAULTS_S + PUBSUB_FAULTS_T,
+    "obligations": FANOUT_FAULTS_S + ROUTER_FAULTS_S + PUBSUB_FAULTS_T,
     "bounds": {"quick": "FanoutMany with faults: 1-2 sinks, 2 rounds", "thorough": "adds Topic::poll with failing subscribers / erroring publisher: 2 subscribers, 1 publisher, <=2 messages, 4 polls"},
-    "outside": "3+ sinks (out of memory at 14 GB); Router and reqrep::Topic (HashMap); real QUIC failures",
+    "outside": "3+ sinks (out of memory at 14 GB); reqrep::Topic::poll; real QUIC failures",
 }
 PROPS["C09"] = {
     "level": "model_checking",
@@ -279,4 +355,24 @@ PROPS["C16"] = {
     "obligations": PUBSUB_SHUTDOWN_T,
     "bounds": {"quick": "close after 0 or 2 symbolic polls; 1 subscriber + 1 publisher, <=2 messages", "thorough": "close after 3 polls; 2 subscribers"},
     "outside": "reqrep::Topic; Server::shutdown (tokio join_all, endpoint close)",
+}
+
+
+NOTE_R = ("router.rs is compiled from /repo's current text with ONE mechanical substitution made at check time: the import of std's HashMap "
+          "is redirected to a small slot map with the same API subset (std's hashbrown-based HashMap is intractable for CBMC here: two inserts, a get "
+          "and a remove did not finish in 15 min); Frame is the shim's reduced enum (Message/BatchMessage/Error/Ok) with the real unwrap_message "
+          "behaviour; anyhow::Error's drop and Backtrace::capture are stubbed (environment). What is decided is therefore the Router's logic modulo "
+          "the map implementation. Trusted: Kani/CBMC/cadical, the K+ driver. Counterexamples are replayed natively before being reported.")
+PROPS["C02"] = {
+    "level": "model_checking",
+    "claim": ("Reply-router half (Layer S) only. The Router source driven directly with 2-3 scripted requestor sinks (ALL Ready/Pending outcomes) and one "
+              "reply per header-menu entry (None, {}, cid 0, cid 1, unknown cid, malformed cid, cid+req_id, req_id only; symbolic payload byte): the reply "
+              "reaches exactly the requestor named by cid, once, with the routing tag stripped and payload and remaining headers intact; every other case "
+              "is rejected with Err and delivered nowhere; no sink is handed a frame without having answered Ready; Pending only while a healthy sink is "
+              "pending. NOT covered: the request/reply topic router's poll loop (origin tagging of requests, the overwrite window for replies) - its "
+              "Layer-T harnesses exist (reqrep_t) but do not finish within the time available to a check."),
+    "note": NOTE_R,
+    "obligations": ROUTER_S,
+    "bounds": {"quick": "2 requestors, one reply per harness, 8 header-map shapes", "thorough": "adds 3 requestors and two replies in a row"},
+    "outside": "reqrep::Topic::poll; std HashMap itself; symbolic header keys/values; more than 3 requestors",
 }
